@@ -151,16 +151,15 @@ fn op_validate_csv(c: &J) -> J {
   match r {
     Ok(()) => json!({"ok":true,"kind":"ok","errors":[]}),
     Err(e) => {
-      let kind = match &e {
-        E::Validation(_) => "validation",
-        E::CSVParsing(_) => "doc",
-        E::CDDLParsing(_) => "cddl",
-        #[allow(unreachable_patterns)]
-        _ => "other",
-      };
-      let errors = match &e {
-        E::Validation(v) => verrs_json(v),
-        _ => json!([]),
+      use cddl::validator::json::Error as JE;
+      let (kind, errors) = match &e {
+        E::Validation(v) => ("validation", verrs_json(v)),
+        E::JSONValidation(JE::Validation(v)) => ("validation", verrs_json(v)),
+        E::JSONValidation(JE::CDDLParsing(_)) => ("cddl", json!([])),
+        E::JSONValidation(_) => ("other", json!([])),
+        E::JSONSerialization(_) => ("other", json!([])),
+        E::CSVParsing(_) => ("doc", json!([])),
+        E::CDDLParsing(_) => ("cddl", json!([])),
       };
       json!({"ok":false,"kind":kind,"errors":errors,"msg":e.to_string()})
     }
